@@ -631,7 +631,29 @@ pub fn run(prop: &'static str, tier: &'static str) -> i32 {
         .map(|(spec, lat)| {
             // triples are cubic: all of them for lattices up to 100 states, else the first 64 states
             let lat_t: &[V] = lat;
-            run_space(prop, spec, lat_t, &ts, lat.len() <= 110)
+            // a space operation that unwinds on lattice states is a finding about the space, not about the harness
+            match crate::explore::guarded(|| run_space(prop, spec, lat_t, &ts, lat.len() <= 110)) {
+                Ok(r) => r,
+                Err(crate::explore::Caught::Panic(msg)) => {
+                    let mut r = Report::new();
+                    let loc = msg.rsplit(" @ ").next().unwrap_or("").rsplit('/').next().unwrap_or("").to_string();
+                    let kitname = match spec {
+                        Spec::Rv { .. } => "RealVector",
+                        Spec::So2 { .. } => "SO2",
+                        Spec::So3 { .. } => "SO3",
+                        Spec::Cmp { .. } => "Compound",
+                        Spec::Se2 { .. } => "SE2",
+                        Spec::Se3 { .. } => "SE3",
+                    };
+                    viol(&mut r, prop, kitname, &format!("panic:{loc}"), spec, format!("a space operation unwound on a lattice state: {msg}"), json!({}));
+                    r
+                }
+                Err(c) => {
+                    let mut r = Report::new();
+                    r.engine_error(format!("harness trouble in {spec:?}: {c:?}"));
+                    r
+                }
+            }
         })
         .reduce(Report::new, |mut a, b| {
             a.merge(b);
